@@ -2,14 +2,12 @@
   Lemmas/OptSoundSkip.lean — the `skip` pass: `(!(a | b | …) ~ ANY)*`  ↦  `SkipUntil [a, b, …]`.
 
   * `collect_sem`: what `_skip` collects from the operand of the negative predicate is exactly
-    the set of strings one of which the operand matches (as long as the walk meets no
-    `SkipUntil`: `regG`).
+    the set of strings one of which the operand matches.
   * `skipSem`: the semantic lemma `SkipSem`, from states inside the input in which implicit
     trivia is the identity.
-  * `skipPass_TR`: the builder;  `npB`, `npExt`: the invariant `NotPOK` is kept.
+  * `skipPass_TR`: the builder.
 -/
 import PestModel.Lemmas.OptSoundRun
-import PestModel.Lemmas.OptSoundMain
 
 set_option linter.unusedVariables false
 
@@ -64,7 +62,7 @@ theorem okOf_ne_oof {r : R0} {b : Bool} (h : okOf r = some b) : r ≠ .oof := by
   intro e; rw [e] at h; simp [okOf] at h
 
 theorem collect_sem : ∀ (k : Nat) (e : Expr) (acc subs : List Str),
-    Opt.skipCollect G.rules k e acc = some subs → (∃ k', regG G k' e = true) →
+    Opt.skipCollect G.rules k e acc = some subs →
     ∃ new, subs = acc ++ new ∧
       ∀ s : S0, ∃ r, Conv G inp e s r ∧ okOf r = some (anyAt inp new s.pos) := by
   intro k
@@ -74,25 +72,24 @@ theorem collect_sem : ∀ (k : Nat) (e : Expr) (acc subs : List Str),
     -- the alternatives of a `Choice`
     have hlist : ∀ (es : List Expr) (acc subs : List Str),
         es.foldl (fun a x => a.bind fun s => Opt.skipCollect G.rules k x s) (some acc) = some subs →
-        (∀ x ∈ es, ∃ k', regG G k' x = true) →
         ∃ new, subs = acc ++ new ∧
           ∀ s : S0, ∃ n r, choiceL (run G inp n) es s = r ∧ okOf r = some (anyAt inp new s.pos) := by
       intro es
       induction es with
       | nil =>
-        intro acc subs h _
+        intro acc subs h
         simp only [List.foldl_nil, Option.some.injEq] at h
         subst h
         exact ⟨[], by simp, fun s => ⟨0, _, rfl, rfl⟩⟩
       | cons x rest ihl =>
-        intro acc subs h hreg
+        intro acc subs h
         simp only [List.foldl_cons, Option.bind_some] at h
         cases hx : Opt.skipCollect G.rules k x acc with
         | none => rw [hx, foldl_none] at h; exact absurd h (by simp)
         | some acc1 =>
           rw [hx] at h
-          obtain ⟨new1, e1, s1⟩ := ih x acc acc1 hx (hreg x List.mem_cons_self)
-          obtain ⟨new2, e2, s2⟩ := ihl acc1 subs h (fun y hy => hreg y (List.mem_cons_of_mem _ hy))
+          obtain ⟨new1, e1, s1⟩ := ih x acc acc1 hx
+          obtain ⟨new2, e2, s2⟩ := ihl acc1 subs h
           refine ⟨new1 ++ new2, by rw [e2, e1, List.append_assoc], fun s => ?_⟩
           obtain ⟨r1, ⟨n1, hn1, hr1⟩, ho1⟩ := s1 s
           obtain ⟨n2, r2, hn2, ho2⟩ := s2 s
@@ -116,30 +113,24 @@ theorem collect_sem : ∀ (k : Nat) (e : Expr) (acc subs : List Str),
     have hcore : ∀ (x : Expr) (acc subs : List Str),
         (match x with
           | .choice es => es.foldl (fun acc y => acc.bind fun s => Opt.skipCollect G.rules k y s) (some acc)
-          | .skipUntil ss => some (acc ++ ss)
+          | .skipUntil _ => none
           | .str s => some (acc ++ [s])
           | .ident n _ =>
             match G.rules.find? (·.name == n) with
             | some r => Opt.skipCollect G.rules k r.body acc
             | none => none
           | _ => none) = some subs →
-        (∃ k', regG G k' x = true) →
         ∃ new, subs = acc ++ new ∧
           ∀ s : S0, ∃ r, Conv G inp x s r ∧ okOf r = some (anyAt inp new s.pos) := by
-      intro x acc subs h hreg
-      obtain ⟨k', hk'⟩ := hreg
-      cases k' with
-      | zero => simp [regG] at hk'
-      | succ k' =>
-        cases x with
+      intro x acc subs h
+      · cases x with
         | choice es =>
           simp only [] at h
-          simp only [regG, List.all_eq_true] at hk'
-          obtain ⟨new, e1, s1⟩ := hlist es acc subs h (fun y hy => ⟨k', hk' y hy⟩)
+          obtain ⟨new, e1, s1⟩ := hlist es acc subs h
           refine ⟨new, e1, fun s => ?_⟩
           obtain ⟨n, r, hn, ho⟩ := s1 s
           exact ⟨r, ⟨n + 1, hn, okOf_ne_oof ho⟩, ho⟩
-        | skipUntil ss => simp [regG] at hk'
+        | skipUntil ss => simp at h
         | str s0 =>
           simp only [Option.some.injEq] at h
           refine ⟨[s0], h.symm, fun s => ⟨_, ⟨1, rfl, ?_⟩, ?_⟩⟩
@@ -154,8 +145,7 @@ theorem collect_sem : ∀ (k : Nat) (e : Expr) (acc subs : List Str),
             rw [hl] at h
             simp only [] at h
             have hl' : G.lookup n = some rl := hl
-            simp only [regG, hl'] at hk'
-            obtain ⟨new, e1, s1⟩ := ih rl.body acc subs h ⟨k', hk'⟩
+            obtain ⟨new, e1, s1⟩ := ih rl.body acc subs h
             refine ⟨new, e1, fun s => ?_⟩
             obtain ⟨r, hc, ho⟩ := s1 { s with atomic := ruleAtomic rl.name rl.mod s.atomic }
             obtain ⟨m, r', hm, ho'⟩ := conv_ruleApply G inp hc ho
@@ -165,23 +155,18 @@ theorem collect_sem : ∀ (k : Nat) (e : Expr) (acc subs : List Str),
             rw [hl']
             exact hm
         | _ => simp at h
-    intro e acc subs h hreg
+    intro e acc subs h
     simp only [Opt.skipCollect] at h
     cases e with
     | group x t =>
-      obtain ⟨k', hk'⟩ := hreg
-      cases k' with
-      | zero => simp [regG] at hk'
-      | succ k' =>
-        simp only [regG] at hk'
-        obtain ⟨new, e1, s1⟩ := hcore x acc subs h ⟨k', hk'⟩
-        refine ⟨new, e1, fun s => ?_⟩
-        obtain ⟨r, ⟨n, hn, hr⟩, ho⟩ := s1 s
-        exact ⟨r, ⟨n + 1, hn, hr⟩, ho⟩
-    | choice es => exact hcore _ acc subs h hreg
-    | skipUntil ss => exact hcore _ acc subs h hreg
-    | str s0 => exact hcore _ acc subs h hreg
-    | ident n t => exact hcore _ acc subs h hreg
+      obtain ⟨new, e1, s1⟩ := hcore x acc subs h
+      refine ⟨new, e1, fun s => ?_⟩
+      obtain ⟨r, ⟨n, hn, hr⟩, ho⟩ := s1 s
+      exact ⟨r, ⟨n + 1, hn, hr⟩, ho⟩
+    | choice es => exact hcore _ acc subs h
+    | skipUntil ss => exact hcore _ acc subs h
+    | str s0 => exact hcore _ acc subs h
+    | ident n t => exact hcore _ acc subs h
     | _ => simp at h
 
 /-! ### `SkipUntil.parse`, characterised -/
@@ -415,9 +400,9 @@ theorem loop_run {B : Expr} {subs : List Str} {a : Bool} (hflag : a = true ∨ N
 /-- **`skip` is sound** (from states inside the input in which implicit trivia is off) -/
 theorem skipSem : SkipSem G := by
   intro inp a e subs s hpat ha hp
-  obtain ⟨inner, anyN, t, x, k, he, ⟨m, sm, hany, hsil⟩, hx, hcol, hreg, hflag⟩ := hpat
+  obtain ⟨inner, anyN, t, x, k, he, ⟨m, sm, hany, hsil⟩, hx, hcol, hflag⟩ := hpat
   subst he hany
-  obtain ⟨new, e1, s1⟩ := collect_sem G inp k x [] subs hcol hreg
+  obtain ⟨new, e1, s1⟩ := collect_sem G inp k x [] subs hcol
   simp only [List.nil_append] at e1
   subst e1
   have hin : ∀ s : S0, ∃ r, Conv G inp inner s r ∧ okOf r = some (anyAt inp subs s.pos) := by
@@ -504,7 +489,7 @@ theorem isAnyNode_inv {right : Expr} (h : Opt.isAnyNode right = true) :
   · exact ⟨_, _, _, rfl⟩
   · simp at h
 
-variable {F : Feat} {sg : Cx}
+variable {F : Feat} {sg : String → Option (String × Nat)}
 
 theorem TR.skipUntil_inv {a : Bool} {subs : List Str} {x' : Expr} (h : TR F G a (.skipUntil subs) x') :
     x' = .skipUntil subs := by
@@ -515,15 +500,15 @@ theorem TR.skipUntil_inv {a : Bool} {subs : List Str} {x' : Expr} (h : TR F G a 
     cases he
 
 theorem skipPass_TR (hF : F.skip = true) {a : Bool} (hflag : a = true ∨ NoTrivia G) (k : Nat) (e : Expr)
-    (he : AllN (NodeOK sg) e) (hk : AllN (NotPOK G) e) :
+    (he : AllN (NodeOK sg) e) :
     TR F G a e (Opt.mapTopDown (Opt.skipPass G.rules 200) k e) := by
-  refine topDown_TR (Opt.skipPass G.rules 200) a (fun e => AllN (NodeOK sg) e ∧ AllN (NotPOK G) e)
-    ?_ (fun x hx => fun c hc => ⟨AllN.children hx.1 c hc, AllN.children hx.2 c hc⟩)
-    (fun n m sm b h => nodeOK_ra h.1.1 a) ?_ k e ⟨he, hk⟩
+  refine topDown_TR (Opt.skipPass G.rules 200) a (fun e => AllN (NodeOK sg) e)
+    ?_ (fun x hx => fun c hc => AllN.children hx c hc)
+    (fun n m sm b h => nodeOK_ra h.1 a) ?_ k e he
   · intro e he
     rcases skipPass_cases G.rules 200 e with h | ⟨_, _, _, _, subs, _, _, _, _, hres⟩
     · rw [h]; exact he
-    · rw [hres]; exact ⟨trivial, trivial⟩
+    · rw [hres]; exact trivial
   · intro e x' he htr
     rcases skipPass_cases G.rules 200 e with h | ⟨inner, right, t, x, subs, hshape, hany, hx, hcol, hres⟩
     · rw [h] at htr; exact htr
@@ -531,211 +516,19 @@ theorem skipPass_TR (hF : F.skip = true) {a : Bool} (hflag : a = true ∨ NoTriv
       have := TR.skipUntil_inv G htr
       subst this
       subst hshape
-      -- the well-formedness of the `ANY` node and of the operand
-      have hseq := he.1.2.2.2
+      -- the well-formedness of the `ANY` node
+      have hseq := he.2.2.2
       have hright : AllN (NodeOK sg) right := hseq.2.1
-      have hnotp : NotPOK G (.notP inner) := (he.2.2.2.2.1 : AllN (NotPOK G) (.notP inner)).1
-      have hreg : regG G 100 inner = true := hnotp
-      refine .skip hF ⟨inner, right, t, x, 200, rfl, ?_, hx, hcol, ?_, hflag⟩
-      · rcases hany with hany | ⟨tg, rfl⟩
-        · obtain ⟨m, sm, b, rfl⟩ := isAnyNode_inv hany
-          have hn : NodeOK sg (.rule "ANY" m sm b) := hright.1
-          simp only [NodeOK] at hn
-          have hb := hn.2.2.2.2.2.2.2.2 trivial
-          subst hb
-          exact ⟨m, sm, rfl, hn.2.2.2.2.2.1 (by decide)⟩
-        · have hn : NodeOK sg (.ident "ANY" tg) := hright
-          exact absurd rfl hn.1
-      · rcases hx with rfl | ⟨n, m, sm, rfl⟩
-        · exact ⟨100, hreg⟩
-        · exact ⟨99, hreg⟩
-
-/-! ### `NotPOK` is kept by every rewrite -/
-
-theorem regG_mono : ∀ (k : Nat) (e : Expr), regG G k e = true → regG G (k + 1) e = true := by
-  intro k
-  induction k with
-  | zero => intro e h; simp [regG] at h
-  | succ k ih =>
-    intro e h
-    cases e with
-    | group x t => simp only [regG] at h ⊢; exact ih x h
-    | choice es =>
-      simp only [regG, List.all_eq_true] at h ⊢
-      exact fun x hx => ih x (h x hx)
-    | rep x => simp [regG] at h
-    | skipUntil ss => simp [regG] at h
-    | ident n t =>
-      simp only [regG] at h ⊢
-      cases hl : G.lookup n with
-      | none => rfl
-      | some r => rw [hl] at h; exact ih _ h
-    | rule n m sm b => simp only [regG] at h ⊢; exact ih b h
-    | _ => simp [regG]
-
-theorem regG_TR {G' : Grammar} (hgr : GR F G G') :
-    ∀ (k : Nat) (a : Bool) (e e' : Expr), TR F G a e e' → regG G k e = true → regG G' k e' = true := by
-  intro k
-  induction k with
-  | zero => intro a e e' _ h; simp [regG] at h
-  | succ k ih =>
-    intro a e e' h hr
-    cases h with
-    | term ht => cases e <;> simp [isTerm] at ht <;> first | (simp [regG] at hr; done) | simp [regG]
-    | @ident n t =>
-      simp only [regG] at hr ⊢
-      have := hgr.2 n
-      revert this hr
-      cases G.lookup n <;> cases G'.lookup n <;> simp only [] <;> intro hr this
-      · trivial
-      · exact absurd this id
-      · trivial
-      · exact ih _ _ _ (this.2.2 true) hr
-    | rule => simp only [regG] at hr ⊢; exact ih _ _ _ (TR.refl F G _ a) hr
-    | ruleC _ h1 => simp only [regG] at hr ⊢; exact ih _ _ _ h1 hr
-    | seq _ _ => simp [regG]
-    | @choice es es' hl hh =>
-      simp only [regG, List.all_eq_true] at hr ⊢
-      intro x hx
-      obtain ⟨i, hi, rfl⟩ := List.getElem_of_mem hx
-      exact ih _ _ _ (hh i (by omega) hi) (hr _ (List.getElem_mem _))
-    | opt _ => simp [regG]
-    | rep _ => simp [regG] at hr
-    | rep1 _ => simp [regG]
-    | repExact _ => simp [regG]
-    | repMin _ => simp [regG]
-    | repMax _ => simp [regG]
-    | repMinMax _ => simp [regG]
-    | andP _ => simp [regG]
-    | notP _ => simp [regG]
-    | group h1 => simp only [regG] at hr ⊢; exact ih _ _ _ h1 hr
-    | push _ => simp [regG]
-    | unroll1 _ => simp [regG]
-    | unroll1g _ => simp [regG]
-    | unrollExact _ => simp [regG]
-    | unrollMin _ => simp [regG]
-    | unrollMax _ => simp [regG]
-    | unrollMinMax _ => simp [regG]
-    | inlB _ _ h1 =>
-      simp only [regG] at hr
-      exact regG_mono G' k _ (ih _ _ _ h1 hr)
-    | inlS hl _ _ h1 =>
-      simp only [regG, hl] at hr
-      exact regG_mono G' k _ (ih _ _ _ h1 hr)
-    | squash _ _ _ _ => simp [regG]
-    | skip _ hpat =>
-      obtain ⟨_, _, _, _, _, he, _⟩ := hpat
-      subst he
-      simp [regG] at hr
-
-theorem NotPOK_mono {G' : Grammar} (hgr : GR F G G') {e : Expr} (h : AllN (NotPOK G) e) :
-    AllN (NotPOK G') e :=
-  AllN.imp2 (fun x hx => by
-    cases x with
-    | notP y => exact regG_TR G hgr 100 true y y (TR.refl F G y true) hx.1
-    | _ => trivial) e h
-
-theorem TR.allNP {G' : Grammar} (hgr : GR F G G') {a : Bool} {e e' : Expr} (h : TR F G a e e')
-    (hG : ∀ n r, G.lookup n = some r → AllN (NotPOK G) r.body) :
-    AllN (NotPOK G) e → AllN (NotPOK G') e' := by
-  induction h with
-  | term _ => exact NotPOK_mono G hgr
-  | ident => exact NotPOK_mono G hgr
-  | rule => exact NotPOK_mono G hgr
-  | ruleC _ _ ih => intro h; exact ⟨trivial, ih h.2⟩
-  | @seq es es' hl hh ih =>
-    intro h
-    exact ⟨trivial, AllNL.transfer hl h.2 ih⟩
-  | @choice es es' hl hh ih =>
-    intro h
-    exact ⟨trivial, AllNL.transfer hl h.2 ih⟩
-  | opt _ ih => intro h; exact ⟨trivial, ih h.2⟩
-  | rep _ ih => intro h; exact ⟨trivial, ih h.2⟩
-  | rep1 _ ih => intro h; exact ⟨trivial, ih h.2⟩
-  | repExact _ ih => intro h; exact ⟨trivial, ih h.2⟩
-  | repMin _ ih => intro h; exact ⟨trivial, ih h.2⟩
-  | repMax _ ih => intro h; exact ⟨trivial, ih h.2⟩
-  | repMinMax _ ih => intro h; exact ⟨trivial, ih h.2⟩
-  | andP _ ih => intro h; exact ⟨trivial, ih h.2⟩
-  | @notP x x' h1 ih =>
-    intro h
-    exact ⟨regG_TR G hgr 100 _ x x' h1 h.1, ih h.2⟩
-  | group _ ih => intro h; exact ⟨trivial, ih h.2⟩
-  | push _ ih => intro h; exact ⟨trivial, ih h.2⟩
-  | unroll1 _ ih =>
-    intro h
-    have := ih h.2
-    exact ⟨trivial, this, ⟨trivial, this⟩, trivial⟩
-  | unroll1g _ ih =>
-    intro h
-    have := ih h.2
-    exact ⟨trivial, this.2, ⟨trivial, trivial, this.2⟩, trivial⟩
-  | unrollExact _ ih => intro h; exact ⟨trivial, AllNL.replicate (ih h.2) _⟩
-  | unrollMin _ ih =>
-    intro h
-    have := ih h.2
-    exact ⟨trivial, AllNL.append (AllNL.replicate this _) ⟨⟨trivial, this⟩, trivial⟩⟩
-  | unrollMax _ ih =>
-    intro h
-    have := ih h.2
-    exact ⟨trivial, AllNL.replicate (show AllN (NotPOK G') (.opt _) from ⟨trivial, this⟩) _⟩
-  | unrollMinMax _ ih =>
-    intro h
-    have := ih h.2
-    exact ⟨trivial, AllNL.append (AllNL.replicate this _)
-      (AllNL.replicate (show AllN (NotPOK G') (.opt _) from ⟨trivial, this⟩) _)⟩
-  | inlB _ _ _ ih => intro h; exact ih h.2
-  | inlS hl _ _ _ ih => intro _; exact ih (hG _ _ hl)
-  | squash _ _ _ _ _ => intro _; trivial
-  | skip _ _ => intro _; trivial
-
-/-- the invariant `notp` after one body has been replaced -/
-theorem npB_proof {sg : String → Option (String × Nat)} (hF : F.skip = true) (G : Grammar) (i : Nat)
-    (h : i < G.rules.length) (b' : Expr) (hinv : Inv F sg G)
-    (htr : ∀ b, TR F G (ruleAtomic G.rules[i].name G.rules[i].mod b) G.rules[i].body b') :
-    ∀ r ∈ (setBody G i h b').rules, AllN (NotPOK (setBody G i h b')) r.body := by
-  have hgr := GR_setBody G i h b' htr
-  have hG : ∀ n r, G.lookup n = some r → AllN (NotPOK G) r.body :=
-    fun n r hl => hinv.notp hF r (lookup_mem hl)
-  intro r hr
-  rcases List.mem_or_eq_of_mem_set hr with h1 | h1
-  · exact NotPOK_mono G hgr (hinv.notp hF r h1)
-  · subst h1
-    exact (htr true).allNP G hgr hG (hinv.notp hF _ (List.getElem_mem h))
-
-/-! ### … and by the SKIP fusion -/
-
-theorem regG_ext {g : Grammar} (hwf : WF F g) (body : Expr) :
-    ∀ (k : Nat) (fa : Bool) (e : Expr), AllN (NodeOK ⟨sigOf g, fa⟩) e → regG g k e = true →
-      regG (ext g body) k e = true := by
-  have hl := lookup_ext g body hwf.lookup_skip
-  intro k
-  induction k with
-  | zero => intro fa e _ h; simp [regG] at h
-  | succ k ih =>
-    intro fa e he h
-    cases e with
-    | group x t => simp only [regG] at h ⊢; exact ih fa x he.2 h
-    | choice es =>
-      simp only [regG, List.all_eq_true] at h ⊢
-      exact fun x hx => ih fa x (AllNL.mem he.2 x hx) (h x hx)
-    | rep x => simp [regG] at h
-    | skipUntil ss => simp [regG] at h
-    | ident n t =>
-      have hn : n ≠ "SKIP" := (he : NodeOK ⟨sigOf g, fa⟩ (.ident n t)).2.1
-      simp only [regG, hl.1 n hn] at h ⊢
-      cases hlk : g.lookup n with
-      | none => rfl
-      | some r => rw [hlk] at h; exact ih _ _ (hwf.nodes r (lookup_mem hlk)) h
-    | rule n m sm b => simp only [regG] at h ⊢; exact ih fa b he.2 h
-    | _ => simp [regG]
-
-theorem npExt_proof {g : Grammar} (hwf : WF F g) : NPExt F g := by
-  intro _ body fa e he hk
-  refine AllN.imp3 (fun x h1 h2 => ?_) e he hk
-  cases x with
-  | notP y => exact regG_ext hwf body 100 fa y h1.2 h2.1
-  | _ => trivial
+      refine .skip hF ⟨inner, right, t, x, 200, rfl, ?_, hx, hcol, hflag⟩
+      rcases hany with hany | ⟨tg, rfl⟩
+      · obtain ⟨m, sm, b, rfl⟩ := isAnyNode_inv hany
+        have hn : NodeOK sg (.rule "ANY" m sm b) := hright.1
+        simp only [NodeOK] at hn
+        have hb := hn.2.2.2.2.2.2.2.2 trivial
+        subst hb
+        exact ⟨m, sm, rfl, hn.2.2.2.2.2.1 (by decide)⟩
+      · have hn : NodeOK sg (.ident "ANY" tg) := hright
+        exact absurd rfl hn.1
 
 end OptS
 end Pest
